@@ -427,6 +427,16 @@ fn monitors(sys: &CSys, op: &COp, before: &Rows, after: &Rows, out: &str, stray:
             }
         }
     }
+    // 5. (C14) what is persisted when a tower is flagged is the evidence given: the proof names the locator and the
+    // recovered id, and the receipt stored for that locator is the one that did not verify (not one held from before)
+    if let COp::Misb { t, l, start, usig, tsig, rec } = op {
+        if out == "ok" && !before.proofs.contains_key(t) && after.proofs.contains_key(t) {
+            let stored = after.rcpts.get(&(*t, *l)).map(|r| (r.0, r.1, r.2));
+            if after.proofs.get(t) != Some(&(*l, *rec)) || stored != Some((*start, *usig, *tsig)) {
+                rep.fail("C14", &format!("{pre}persisted_proof_is_not_the_evidence"), &format!("`{}` flagged tower {t}; stored proof {:?} (locator, recovered id), stored receipt for that locator {:?} (start, user sig, tower sig); receipt held before: {:?}", op.line(), after.proofs.get(t), stored, before.rcpts.get(&(*t, *l))));
+            }
+        }
+    }
     // 4. a shared body stays while anybody references it; a released one with no reference left goes
     for (t, l) in after.pend.iter().chain(after.inval.iter()) {
         if !after.bodies.contains_key(l) {
